@@ -111,6 +111,7 @@ impl Strategy {
         options: &mut NutsOptions,
         hamiltonian: &mut H,
         position: &[F],
+        start: Option<&State<M, P>>,
         rng: &mut R,
     ) -> (r: Result<(), NutsError>)
         requires
